@@ -223,9 +223,16 @@ def _doc_text(rng) -> Tuple[str, str]:
     elif r < 0.7:
         v = {"a": ["é", "日本", "á", "\U0001f600", {"b": "ü"}], "b": "ñ", "é": 1}
         kind = "non-ascii"
-    elif r < 0.8:
+    elif r < 0.76:
         v = [2**70, -(2**63), 1e308, 5e-324, 1.5, 0, -0.0, {"a": 10**25}]
         kind = "big-numbers"
+    elif r < 0.78:
+        # number literals beyond the range of a double: the decoder makes them infinite, and so
+        # does find(); what the tool writes is what find() selected, not a "repaired" value
+        return rng.choice(('[1e400, -1E+999, 2e308, 1.7976931348623157e308, 3, {"a": 1e999}]', '{"a": [2e308, 1.7976931348623157e308, 3], "b": -1e400}', "[" + "9" * 310 + ".0, 1]")), "overflowing-floats"
+    elif r < 0.8:
+        # characters that only SOME notions of "line" or "blank" know (LS, PS, NEL), raw, in names and values
+        return '{"a\u2028b": 1, "a b": 2, "\u0085": 3, "a": ["x\u2028y", "x y", "x\u2029y", "x\u0085y"], "b": {"a\u2029b": 4, "a b": 5}}', "odd-separators"
     elif r < 0.86:
         return rng.choice(('[NaN, 1]', '{"a": Infinity, "b": [-Infinity]}', '[1, {"a": NaN}]')), "nan"
     elif r < 0.885:
@@ -328,9 +335,11 @@ SPECIAL_VALID_QUERIES = [
     "$['a b']", "$[?@ == 'a  b']", "$[?length(@) == 1]", "$[?length(@) == 2]", "$[?match(@, 'A')]", "$[?match(@, 'a')]", "$[?search(@, 'B')]",
     "$.*", "$[*, *]", "$..*", "$[0, 0]", "$['a', 'a']", "$[*, 0]", "$[0:2, 1:3]", "$[-1, 0]", "$[?@ == 1.0]", "$[?@ == 1]", "$[?@ == null]",
     "$[?@ == -0.0]", "$[?@ > 1e15]", "$[?@ == 10000000000000000]", "$..[?@ == @]", "$[?@ == 'e\u0301']", "$[?@ == '\u00e9']", "$['']", "$['$']", "$['*']",
+    "$['a\u2028b']", "$['a b']", "$['\u0085']", "$.a[?@ == 'x\u2028y']", "$.a[?@ == 'x y']", "$.b['a\u2029b']", "$.a[?@ != 'x\u0085y']", "$..['a b', 'a\u2028b']",
+    "$[?@ > 1.7976931348623157e308]", "$[0, 1]", "$..a", "$[?@ < -1.7976931348623157e308]",
     "$[ 0 ]", "$ [0]", "$[?@.a == 'x' ]", "$[?count(@.*) == 0]", "$[?value(@.*) == 1]", "$[::-1]", "$[1::2]", "$[:0]", "$[?@ != @]", "$..['a', 'a']",
 ]
-FUZZ_CHARS = ("\r", "\t", "\x00", "\x1b[31m", "\u2028", "\u00a0", "\x0c", "\n", "'", '"', "\\", "[", "]", "(", ")", "?", "@", "$", ".", "..", ",", ":", "*", "!", "&&", "||", "==", "<", "0", "-", "1e", "\\u", "\\ud83d", "\\udc00", "é", "\U0001f600")
+FUZZ_CHARS = ("\x0b", "\x1c", "\x1d", "\x1e", "\x85", "\u2029", "\r", "\t", "\x00", "\x1b[31m", "\u2028", "\u00a0", "\x0c", "\n", "'", '"', "\\", "[", "]", "(", ")", "?", "@", "$", ".", "..", ",", ":", "*", "!", "&&", "||", "==", "<", "0", "-", "1e", "\\u", "\\ud83d", "\\udc00", "é", "\U0001f600")
 
 
 # every non-ASCII whitespace-like / control / format code point a lexer might special-case
